@@ -13,7 +13,8 @@ RULE = ("K: (a) fdtdx.TanhProjection.__call__ (and tanh_projection directly) for
         "voxel sizes 20 nm .. 1 um, fields = uniform / ramps / smooth waves / half-flat / nearly flat (gradient 1e-13, 1e-20, 1e-80: d/R overflows when raised to the 4th power) / random (cells with and without an interface, "
         "counted by an independent numpy mask), same beta/eta families; compared with the model at 1e-9 except cells whose "
         "interface distance is within 1e-9 relative of the smoothing radius (branch decision at round-off; counted). "
-        "Error glue: no singleton axis, unequal voxel sizes, missing beta, axis shorter than 2. "
+        "(b') both classes called with multi-entry dicts whose arrays differ in shape and singleton-axis position in ONE call "
+        "(shape kept, equal to the single-array call, model per entry). Error glue: no singleton axis, unequal voxel sizes, missing beta, axis shorter than 2. "
         "Property oracle on the implementation (independent of the model) for every case: range [0,1] on [0,1], monotone, "
         "fixes 0 and 1 (eta in (0,1)), beta=0 == clip exactly, beta=inf == step away from eta exactly, smoothed == plain in "
         "cells without interface, jax.grad w.r.t. x / beta / eta finite (binary64 and float32). "
@@ -83,6 +84,40 @@ def impl_smooth(beta, eta, x3, voxel):
     if out.shape != x3.shape:
         raise AssertionError(f"shape changed {x3.shape} -> {out.shape}")
     return out
+
+
+def impl_dict(cls_name, beta, eta, arrays, voxel=(1e-6, 1e-6, 1e-6)):
+    """ONE __call__ on a dict whose entries differ in shape / singleton-axis position; {key: numpy} or 'error'"""
+    j = J()
+    jnp = j["jnp"]
+    first = next(iter(arrays.values()))
+    t = j[cls_name](projection_midpoint=eta)
+    t = t.init_module(config=j["cfg"], materials=j["mats"], matrix_voxel_grid_shape=tuple(first.shape),
+                      single_voxel_size=tuple(voxel), output_shape={k: tuple(a.shape) for k, a in arrays.items()})
+    try:
+        out = t({k: jnp.asarray(a, dtype=jnp.float64) for k, a in arrays.items()}, beta=beta)
+    except Exception:
+        return "error"
+    if list(out.keys()) != list(arrays.keys()):
+        return "error"
+    return {k: np.asarray(out[k], dtype=np.float64) for k in arrays}
+
+
+def prop_dict(cls_name, beta, eta, arrays, voxel=(1e-6, 1e-6, 1e-6), out=None):
+    """multi-entry call: every entry keeps its shape and equals the single-array call on that entry"""
+    arrays = {k: np.asarray(a, dtype=np.float64) for k, a in arrays.items()}
+    if out is None:
+        out = impl_dict(cls_name, beta, eta, arrays, voxel)
+    tag = f"{cls_name} beta={beta} eta={eta} dict shapes={[a.shape for a in arrays.values()]}"
+    if isinstance(out, str):
+        return f"multi-entry call raised: {tag}"
+    for k, v in arrays.items():
+        if out[k].shape != v.shape:
+            return f"entry '{k}' changed shape {v.shape} -> {out[k].shape} in a multi-entry call: {tag}"
+        alone = impl_tanh(beta, eta, v) if cls_name == "Tanh" else impl_smooth(beta, eta, v, voxel)
+        if not np.array_equal(alone, out[k], equal_nan=True):
+            return f"entry '{k}' differs from the single-array call: {tag}"
+    return None
 
 
 _GR = {}
@@ -398,6 +433,55 @@ def run(ctx):
         if d:
             ctx.violation(case, d)
 
+    # (b') multi-entry dicts mixing shapes and singleton-axis positions in ONE call (both classes): every entry keeps its
+    # shape, equals the single-array call, and is compared with the model entry by entry
+    for ci in range(ctx.scale(6, 30)):
+        cls_name = "Tanh" if ci % 2 == 0 else "Smooth"
+        beta, eta = rng.choice(BETAS), rng.choice(etas)
+        a, b, c = rng.randint(2, 4), rng.randint(5, 6), rng.randint(2, 6)
+        dims = rng.shuffle([(a, b), (b, c), (c, a + 1)])
+        shapes = []
+        for pos, d in zip(rng.shuffle([0, 1, 2]), dims):
+            sh = list(d)
+            sh.insert(pos, 1)
+            shapes.append(tuple(sh))
+        if cls_name == "Tanh":
+            shapes[0] = (a, b, c)                     # the plain projection also takes full 3-D arrays
+        shapes = shapes[:rng.randint(2, 3)]
+        arrays = {k: gen_field(rng, int(np.prod(sh)), 1, "random").reshape(sh) for k, sh in zip(("a", "b", "c"), shapes)}
+        vox = rng.choice(VOXELS)
+        voxel = [vox] * 3
+        out = impl_dict(cls_name, beta, eta, arrays, voxel)
+        case = {"op": "dict", "cls": cls_name, "beta": beta, "eta": eta, "voxel": voxel,
+                "dict": {k: v.tolist() for k, v in arrays.items()}}
+        ctx.case(nontrivial=("dict", ci), op="mixed-dict", cls=cls_name, entries=len(shapes),
+                 singleton_positions="/".join(str(list(sh).index(1)) if 1 in sh else "-" for sh in shapes))
+        for k, v in arrays.items():
+            if isinstance(out, str) or out[k].shape != v.shape:
+                ctx.mismatch("mixed-dict", case, {"entry": k, "impl": out if isinstance(out, str) else list(out[k].shape),
+                                                  "expected_shape": list(v.shape)})
+                continue
+            if cls_name == "Tanh":
+                line = f"tanh {f2h(beta)} {f2h(eta)} " + " ".join(f2h(x) for x in v.ravel())
+                ok = np.ones(v.size, dtype=bool)
+            else:
+                vax = list(v.shape).index(1)
+                x2 = np.squeeze(v, vax)
+                res = 1 / (voxel[0] / 1e-6)
+                line = f"smooth {x2.shape[0]} {x2.shape[1]} {f2h(beta)} {f2h(eta)} {f2h(res)} {f2h(C055)} " + " ".join(f2h(t) for t in x2.ravel())
+                ok = (np.abs(np_mask(x2, eta, res)[1]) > 1e-9).ravel()
+
+            def cb(rep, case=case, y=out[k].ravel(), ok=ok):
+                if rep in ("bad-op", "error"):
+                    ctx.mismatch("mixed-dict", case, {"model": rep})
+                else:
+                    ctx.expect_close("mixed-dict", case, y[ok], np.asarray(h2fs(rep))[ok], tol=1e-9)
+            B.ask(line, cb)
+        ctx.impl_property_evals += 1
+        d = prop_dict(cls_name, beta, eta, arrays, voxel, out)
+        if d:
+            ctx.violation(case, d)
+
     # (c) glue / error branches
     jx = J()
     for shape in [(3, 3, 3), (2, 3, 4), (1, 3, 4), (3, 1, 4), (3, 4, 1), (1, 1, 4), (1, 4, 1)]:
@@ -450,6 +534,8 @@ def run(ctx):
 
 # ------------------------------------------------------------------------------------------- S
 def _eval(inp):
+    if inp.get("op") == "dict":
+        return prop_dict(inp["cls"], inp["beta"], inp["eta"], inp["dict"], inp["voxel"])
     if inp.get("op") == "smooth":
         return prop_smooth(inp["beta"], inp["eta"], np.asarray(inp["x3"], dtype=np.float64), inp["voxel"])
     return prop_tanh(inp["beta"], inp["eta"], inp["xs"])
@@ -457,7 +543,7 @@ def _eval(inp):
 
 def search(ctx, hints):
     for h in hints:
-        if isinstance(h, dict) and h.get("op") in ("tanh", "smooth"):
+        if isinstance(h, dict) and h.get("op") in ("tanh", "smooth", "dict"):
             ctx.impl_property_evals += 1
             d = _eval(h)
             if d:
